@@ -44,10 +44,19 @@
      mutex that a pending deferred statement releases must be back at the
      declared net effect after the unwinding when the panic was raised by
      the function itself ([OPanic]; [OPanicC] is a panic that comes out of a
-     callee, whose net effect is only known from below: [s_plow]).  Only the
-     locks no pending defer covers are exempt.  A function whose summary says
+     callee, whose net effect is only known from below).  Only the locks no
+     pending defer covers are exempt.  A function whose summary says
      [s_panics = false] is checked never to panic (explicit panic statements
      only: nil dereferences and the like are not modelled).
+   - [s_plow] is a declared, justified exemption (summaries.json): the
+     mutexes a function may have released, on net, when a panic leaves it
+     (a helper that unlocks, waits and re-locks through a call that can
+     panic).  The bound is checked on every panicking exit of the function
+     ([plow_ok]); a caller in which such a callee panics gives exactly those
+     mutexes the benefit of the doubt ([slack]) while its deferred
+     statements run, and must itself declare the bound it inherits.  For a
+     function with an empty [s_plow] -- all but a handful -- a panic never
+     leaves a mutex lower than it was on entry.
    - [ai] computes, for a statement and an abstract state, the set of
      (outcome, state) pairs reachable through [exec]; calls are replaced by the
      callee's declared summary.  [fn_ok] checks a function body against its
